@@ -69,7 +69,13 @@ fn gen_edge_start(xot: &Xot, top_node: Node, node: Node) -> impl Iterator<Item =
                 // an unattached tree and they aren't declared already
                 let namespaces = xot.namespaces(node);
                 if node == top_node {
+                    let no_namespace = xot.namespace_for_name(element.name()) == xot.no_namespace();
                     for (prefix_id, namespace_id) in xot.namespaces_in_scope(node) {
+                        // an element in no namespace cannot be written
+                        // inside the scope of a default namespace
+                        if no_namespace && prefix_id == xot.empty_prefix() {
+                            continue;
+                        }
                         if !namespaces.contains_key(prefix_id) {
                             yield_!(Output::Prefix(prefix_id, namespace_id,));
                         }
